@@ -2,6 +2,7 @@ SPECIFICATION Spec
 CONSTANTS
   MaxTargets = 4
   MapOrder = "ordered"
-  OtherTraits = {{}, {"Debug", "Clone"}}
+  Memo = "none"
+  OtherTraits = {{}, {"Debug", "Clone"}, {"PartialOrd"}, {"PartialEq", "Eq", "PartialOrd", "Ord"}}
 INVARIANTS Deterministic IntoExactlyRequested
 CHECK_DEADLOCK FALSE
